@@ -33,7 +33,8 @@ import (
 //        POST {prefix}/__introspect_token__ in-process (hs.ServeHTTP) with a body reader that records
 //        whether it was touched
 //   <auth> = anon | fail-value | fail-unavail | fail-other | ok:xPRINCIPAL | unauth:xPRINCIPAL
-//   <res>  = unknown | id:xPRINCIPAL:xNAME:<ttl> | unavail:<retryAfter>:xERRTEXT   (what the resolver
+//   <res>  = unknown | id:xPRINCIPAL:xNAME:<ttl> | no:xPRINCIPAL:xNAME:<ttl> | unavail:<retryAfter>:xERRTEXT
+//            | r:<ok 0|1>:<err nil|unavail|other>:<retryAfter>:xERR:xPRINCIPAL:xNAME:<ttl>   (what the resolver
 //            answers for whatever credential it is handed; it records every credential it sees)
 //
 // Model line: `req <ctx|fail> <cl> xBODY <json> <res>` where <json> is encoding/json's decoding of the
@@ -168,6 +169,23 @@ func newC26Env(enabled bool, principals []string, ttl, rate int, authmode string
 				e.mu.Unlock()
 				f := strings.Split(res, ":")
 				switch f[0] {
+				case "r":
+					// full product: r:<ok>:<err nil|unavail|other>:<retryAfter>:xERR:xPRINCIPAL:xNAME:<ttl>
+					ra, _ := strconv.Atoi(f[3])
+					t, _ := strconv.Atoi(f[7])
+					id := vgirpc.TokenIdentity{Principal: UnXS(f[5]), TokenName: UnXS(f[6]), TTLSeconds: t}
+					switch f[2] {
+					case "unavail":
+						ue := vgirpc.NewAuthUnavailable(UnXS(f[4]))
+						ue.RetryAfter = ra
+						return id, f[1] == "1", ue
+					case "other":
+						return id, f[1] == "1", errors.New(UnXS(f[4]))
+					}
+					return id, f[1] == "1", nil
+				case "no":
+					t, _ := strconv.Atoi(f[3])
+					return vgirpc.TokenIdentity{Principal: UnXS(f[1]), TokenName: UnXS(f[2]), TTLSeconds: t}, false, nil
 				case "id":
 					t, _ := strconv.Atoi(f[3])
 					return vgirpc.TokenIdentity{Principal: UnXS(f[1]), TokenName: UnXS(f[2]), TTLSeconds: t}, true, nil
@@ -315,7 +333,24 @@ func c26Req(c *Case, env *c26Env, l string, f []string) {
 		mJSON = XS(jb.Token)
 		cred, haveCred = jb.Token, true
 	}
-	modelLine := fmt.Sprintf("req %s %d %s %s %s", mAuth, cl, f[3], mJSON, res)
+	mRes, resOK, resErr := res, res != "unknown" && !strings.HasPrefix(res, "no:"), strings.HasPrefix(res, "unavail:")
+	if rf := strings.Split(res, ":"); rf[0] == "r" && len(rf) == 8 {
+		resOK, resErr = rf[1] == "1", rf[2] != "nil"
+		switch {
+		case rf[2] == "unavail":
+			mRes = fmt.Sprintf("unavail:%s:%s", rf[3], rf[4])
+			if rf[3] == "-1" {
+				mRes = fmt.Sprintf("unavail:0:%s", rf[4]) // an AuthUnavailableError with a non-positive hint: the default
+			}
+		case rf[2] == "other":
+			mRes = fmt.Sprintf("unavail:-1:%s", rf[4])
+		case rf[1] == "1":
+			mRes = fmt.Sprintf("id:%s:%s:%s", rf[5], rf[6], rf[7])
+		default:
+			mRes = fmt.Sprintf("no:%s:%s:%s", rf[5], rf[6], rf[7])
+		}
+	}
+	modelLine := fmt.Sprintf("req %s %d %s %s %s", mAuth, cl, f[3], mJSON, mRes)
 
 	// ---- observation
 	var obs string
@@ -437,11 +472,19 @@ func c26Req(c *Case, env *c26Env, l string, f []string) {
 	// one fixed 404 for everything unresolvable
 	if env.enabled && authorized && status != 429 && status != 200 && status != 503 {
 		if status != 404 || string(respBody) != `{"error":"unresolved"}` {
-			c.Oracle("unresolved-not-uniform", fmt.Sprintf("%q: status %d body %q", l, status, respBody))
+			c.Oracle("unresolved-not-uniform-404", fmt.Sprintf("%q: status %d body %q", l, status, respBody))
 		}
 	}
-	if res == "unknown" && status == 200 {
-		c.Oracle("unresolvable-credential-resolved", fmt.Sprintf("%q", l))
+	// the resolver said ok=false (no error): whatever identity it filled in alongside, the answer
+	// is the one fixed 404
+	if len(calls) > 0 && !resOK && !resErr {
+		c.Stat("resolver-said-no")
+		if status != 404 || string(respBody) != `{"error":"unresolved"}` {
+			c.Oracle("unresolved-not-uniform-404", fmt.Sprintf("%q: resolver answered ok=false but the response is %d %q", l, status, respBody))
+		}
+	}
+	if len(calls) > 0 && resErr && status != 503 {
+		c.Oracle("resolver-error-not-503", fmt.Sprintf("%q: resolver returned an error but the response is %d %q", l, status, respBody))
 	}
 	// the credential never appears in a response or a log line
 	if haveCred && len(cred) >= 8 {
